@@ -280,6 +280,17 @@ func (b *Broker) Dial() *Client {
 	return c
 }
 
+// DialCap: like Dial, but the broker's writes block once capBytes are waiting unread at the client
+func (b *Broker) DialCap(capBytes int) *Client {
+	cl, srv := bufPipeCap(capBytes)
+	c := &Client{conn: cl, Ver: mqttp.ProtocolV311, done: make(chan struct{})}
+	go func() {
+		_ = b.Mgr.OnConnection(srv, b.Auth)
+		close(c.done)
+	}()
+	return c
+}
+
 func (c *Client) Close() { _ = c.conn.Close() }
 
 func (c *Client) SendRaw(b []byte) error {
